@@ -175,6 +175,105 @@ pub fn cases(thorough: bool) -> Vec<RuleCase> {
             }
         }
     }
+    out.extend(cases_auto3(thorough));
+    out
+}
+
+/// Second auto-trait family: three non-generic structs P1..P3 whose field lists are ordered
+/// sequences over {N (negative impl), P1, P2, P3} — every shape of a cycle that fails because
+/// of a `!Send` member somewhere along it, in every field order (both solvers pick subgoals in
+/// field order, and which member is asked first decides which table is completed as a non-root
+/// member of the cycle). Goals: each `Pi: Send`, in every order on one solver.
+fn cases_auto3(thorough: bool) -> Vec<RuleCase> {
+    let names = ["N", "P1", "P2", "P3"];
+    fn seqs(max_len: usize) -> Vec<Vec<usize>> {
+        let mut out: Vec<Vec<usize>> = vec![vec![]];
+        let mut frontier: Vec<Vec<usize>> = vec![vec![]];
+        for _ in 0..max_len {
+            let mut next = vec![];
+            for s in &frontier {
+                for k in 0..4 {
+                    if !s.contains(&k) {
+                        let mut t = s.clone();
+                        t.push(k);
+                        next.push(t);
+                    }
+                }
+            }
+            out.extend(next.iter().cloned());
+            frontier = next;
+        }
+        out
+    }
+    let long = seqs(3);
+    let short = seqs(if thorough { 3 } else { 2 });
+    let mut out = vec![];
+    for f1 in &long {
+        for f2 in &short {
+            for f3 in &short {
+                // P2 <-> P3 symmetry: keep one representative when P1 does not tell them apart
+                let swap = |f: &Vec<usize>| -> Vec<usize> { f.iter().map(|&k| if k == 2 { 3 } else if k == 3 { 2 } else { k }).collect() };
+                if swap(f1) == *f1 && (swap(f3), swap(f2)) < (f2.clone(), f3.clone()) {
+                    continue;
+                }
+                let fields = [f1, f2, f3];
+                if f1.len() + f2.len() + f3.len() > if thorough { 7 } else { 5 } {
+                    continue;
+                }
+                // only programs in which some Pi is reachable from itself (the family is about cycles)
+                let reach = |from: usize| -> bool {
+                    let mut seen = [false; 4];
+                    let mut stack: Vec<usize> = fields[from - 1].clone();
+                    while let Some(k) = stack.pop() {
+                        if k == 0 || seen[k] {
+                            continue;
+                        }
+                        seen[k] = true;
+                        stack.extend(fields[k - 1].iter().cloned());
+                    }
+                    seen[from]
+                };
+                if !(1..=3).any(reach) {
+                    continue;
+                }
+                let decl = |i: usize| {
+                    format!(
+                        "struct P{} {{ {} }}",
+                        i,
+                        fields[i - 1].iter().enumerate().map(|(j, k)| format!("f{}: {}", j, names[*k])).collect::<Vec<_>>().join(", ")
+                    )
+                };
+                let program = format!(
+                    "#[auto] trait Send {{}} struct N {{}} impl !Send for N {{}} {} {} {}",
+                    decl(1),
+                    decl(2),
+                    decl(3)
+                );
+                let mut rules = builtin_auto_rules("Send");
+                for i in 1..=3 {
+                    rules.push(Rule {
+                        nvars: 0,
+                        head: at(app0(names[i]), "Send"),
+                        body: fields[i - 1].iter().map(|k| at(app0(names[*k]), "Send")).collect(),
+                    });
+                }
+                let mut goals: Vec<Goal> = (1..=3).map(|i| Goal::Atom(at(app0(names[i]), "Send"))).collect();
+                goals.push(Goal::And(vec![Goal::Atom(at(app0("P3"), "Send")), Goal::Not(Box::new(Goal::Atom(at(app0("P1"), "Send"))))]));
+                goals.push(Goal::Not(Box::new(Goal::Atom(at(app0("P2"), "Send")))));
+                out.push(RuleCase {
+                    family: "auto3",
+                    class: "auto3/cyclic".into(),
+                    program,
+                    rules,
+                    coinductive: vec!["Send".into()],
+                    ctors: vec![("N".into(), 0), ("P1".into(), 0), ("P2".into(), 0), ("P3".into(), 0)],
+                    goals,
+                    goal_texts: vec![],
+                    history: 3,
+                });
+            }
+        }
+    }
     out
 }
 
